@@ -170,8 +170,8 @@ def check_grid(numpoly, start, stop, dims, q, graded, reverse, fails, scalar):
                                  case={"grid_one": {"start": list(start), "stop": list(stop), "dims": dims, "q": q,
                                                     "graded": graded, "reverse": reverse, "scalar": scalar}}))
     try:
-        got = numpoly.glexindex(a_start, a_stop, dimensions=dims, cross_truncation=qval(q), graded=graded,
-                                reverse=reverse)
+        got = numpoly.glexindex(a_start, a_stop, dimensions=numpy.int64(dims) if (len(want) + dims) % 2 else dims,
+                                cross_truncation=qval(q), graded=graded, reverse=reverse)
     except Exception as err:
         fail("glexindex", "exception", repr(err))
         return False
@@ -218,8 +218,9 @@ def check_grid(numpoly, start, stop, dims, q, graded, reverse, fails, scalar):
     # monomial
     if want and len(want) <= 60:
         try:
-            mono = numpoly.monomial(a_start, a_stop, dimensions=dims, cross_truncation=qval(q), graded=graded,
-                                    reverse=reverse)
+            # (the dimension count as a plain or - every other time - a numpy integer, as numpy hands them out)
+            mono = numpoly.monomial(a_start, a_stop, dimensions=numpy.int64(dims) if (len(want) + dims) % 2 else dims,
+                                    cross_truncation=qval(q), graded=graded, reverse=reverse)
             ok = mono.shape == (len(want),)
             if ok:
                 names = list(mono.names)
